@@ -209,14 +209,15 @@ Lemma check_C13_spec k :
      (s_extrem x = false -> s_newest x <> None)) /\
   c_left_behind k = 0 /\ (forall b, In b (c_forced_after_removal k) -> b = true) /\
   (forall b, In b (c_forced_ok_has_file k) -> b = true) /\
-  (forall b, In b (c_forced_ok_old_existed k) -> b = true).
+  (forall b, In b (c_forced_ok_old_existed k) -> b = true) /\
+  (forall b, In b (c_regular_in_time k) -> b = true).
 Proof.
   unfold check_C13. rewrite !andb_true_iff, !forallb_forall, Z.eqb_eq. split.
-  - intros [[[[[H1 H2] H3] H4] H5] H6]. repeat split; auto.
+  - intros [[[[[[H1 H2] H3] H4] H5] H6] H7]. repeat split; auto.
     + intros f Hf. specialize (H1 x H). unfold sample_fresh in H1. rewrite H0, Hf in H1.
       apply Z.ltb_lt in H1. assumption.
     + intros He Hn. specialize (H2 x H). unfold sample_has_file in H2. rewrite H0, He, Hn in H2. discriminate.
-  - intros [H1 [H3 [H4 [H5 H6]]]]. repeat split; auto.
+  - intros [H1 [H3 [H4 [H5 [H6 H7]]]]]. repeat split; auto.
     + intros x Hx. unfold sample_fresh. destruct (s_alive x) eqn:Ea; [|reflexivity].
       destruct (s_newest x) as [f|] eqn:En; [|reflexivity]. apply Z.ltb_lt. apply (proj1 (H1 x Hx Ea)). exact En.
     + intros x Hx. unfold sample_has_file. destruct (s_alive x) eqn:Ea; [|reflexivity].
@@ -231,4 +232,19 @@ Lemma model_samples_fresh c acq tr s :
 Proof.
   intros Hc Ha Hrun Hst. unfold sample_fresh; cbn. destruct (alive s) eqn:Hal; [|reflexivity].
   apply Z.ltb_lt. eapply alive_implies_fresh; eauto.
+Qed.
+
+(* the model starts a regular refresh only while the last successfully written lock is not older than R
+   (ftime changes only on REndOk / ForcedOk, never on a failed attempt) *)
+Lemma regular_refresh_in_time c s t s' : step c s (RStart t) = Some s' -> t - ftime s <= R c.
+Proof.
+  unfold step. destruct (negb _); [discriminate|]. cbn.
+  destruct (isSome (rbusy s) || isSome (fstart s) || stuck s || negb (t - ftime s <=? R c)) eqn:E; [discriminate|].
+  intros _. apply orb_false_iff in E as [_ E]. apply negb_false_iff in E. apply Z.leb_le in E. exact E.
+Qed.
+
+Lemma failed_refresh_keeps_ftime c s t s' : step c s (REndFail t) = Some s' -> ftime s' = ftime s.
+Proof.
+  unfold step. destruct (negb _); [discriminate|]. cbn. destruct (rbusy s); [|discriminate].
+  intros H; inversion H; reflexivity.
 Qed.
